@@ -93,7 +93,7 @@ impl Prop for P {
 
         for (what, mode) in [("flat", BufMode::Flat { cap: n + 1 }), ("ring32k", BufMode::Ring { bits: 15, start: case.ring_start, fill_seed: case.fill_seed })] {
             let mut d = DecompressorOxide::new();
-            let r = drive(&mut d, &data, &DriveOpts { flags: zf, mode, sched: &case.sched, canary: false, max_calls: None, announce: true, flat_start: 0 }, plain_hook)?;
+            let r = drive(&mut d, &data, &DriveOpts { flags: zf, mode, sched: &case.sched, canary: false, max_calls: None, announce: true, flat_start: 0, probe_full_ring: false }, plain_hook)?;
             vensure!(r.status == TINFLStatus::Done && r.out == plain, "c06:not-decoded", "[{what}] status {} out {} (want {n})", status_name(r.status), r.out.len());
             vensure!(r.consumed == enc, format!("c06:consumed-mismatch:{what}"), "[{what}] stream is {enc} bytes long ({} trailing bytes follow) but {} were reported consumed; final block ended at bit offset {}", case.tail.len(), r.consumed, t.r.blocks.last().map(|b| b.end_bit & 7).unwrap_or(0));
             // later calls consume nothing
